@@ -75,6 +75,12 @@ CHECKS.update({
    note=EDIT_NOTE + " Oracle-free on the code side: the two executions are compared with each other. Instances whose path holds a reference (aliases, C11) or whose rm would prune a layer are not law instances.",
    tech="laws as TLC invariants of the spec + TLC-compared twin executions of the real code"),
 })
+CHECKS.update({
+ "C14": dict(engine="mapping", cat="model_checking", ref="DESIGN.md §7 C14",
+   text="Mapping.tla gives item get/set/del on the document, on nested sets and on the scope mapping a reference semantics over Doc (an attrpath family is one key); TLC checks the dictionary laws (SetGet, DelGet, OthersUntouched, MissingKey) on the model; every depth-1 transition and random histories are replayed on one real object, recording after each step which keys the real mapping reports and the text it rebuilds to, and TLC (Mapping_Trace) judges laws and text/mapping coherence.",
+   note=EDIT_NOTE + " Writes through a view synthesized for an attrpath family root (src['f'] for f.x / f.y) are left unspecified; only wrappers that the mapping API's own target resolution supports are used.",
+   tech="TLA+ mapping semantics (TLC-checked laws) + TLC trace validation of real get/set/del histories"),
+})
 import os
 built = {p: m for p, m in CHECKS.items()}
 checks = []
@@ -112,6 +118,8 @@ man = {
     "kind_free_text": "spec/Scoping.tla + MC_Scoping (all chains) -> real traversal / Identifier.value / set through reference -> spec/Scoping_Trace.tla"},
    {"name": "laws", "path": "harness/engines/laws.py", "serves_properties": ["C19"],
     "kind_free_text": "law instances from spec/Edit.tla transitions -> twin executions on the real code -> spec/Laws_Trace.tla"},
+   {"name": "mapping", "path": "harness/engines/mapping.py", "serves_properties": ["C14"],
+    "kind_free_text": "spec/Mapping.tla (extends Edit/Doc) -> real item get/set/del histories on one object -> spec/Mapping_Trace.tla"},
  ],
  "checks": checks,
  "notes": "All checks: ./check <ID> [--tier quick|thorough]; VERIF_SEED / VERIF_TIER honoured. Known findings: known_findings.json. See DESIGN.md.",
